@@ -4,6 +4,7 @@ package main
 // lemmas.
 
 import (
+	"os"
 	"fmt"
 	"go/types"
 	"strings"
@@ -117,6 +118,8 @@ func (v *Verifier) VerifyFunctionBounded(fn *ssa.Function, fc *FuncContract, bou
 			v.tcs[mode].relaxRefs = true
 		}
 	}
+	// heap descriptions are per function: sorts depend on the integer mode of the function
+	v.heapLeaves = map[string]heapInfo{}
 	fx := &FnCtx{V: v, tc: v.tcs[mode], root: root, fn: fn, fc: fc, prefix: short,
 		vals: map[ssa.Value]Value{}, params: map[string]Value{}, topLevel: true, regions: map[*ssa.Alloc]*Region{}}
 	root.top = fx
@@ -126,7 +129,13 @@ func (v *Verifier) VerifyFunctionBounded(fn *ssa.Function, fc *FuncContract, bou
 				err = ee
 				return
 			}
-			panic(r)
+			if os.Getenv("HVC_PANIC") != "" {
+				panic(r)
+			}
+			// an internal error of the generator on this function: the function's obligations cannot
+			// be generated (reported like a function that left the verifiable subset, not as a crash
+			// that hides the results for every other function)
+			err = fmt.Errorf("internal error of the condition generator: %v", r)
 		}
 	}()
 	if fn.Blocks == nil {
@@ -253,7 +262,17 @@ func (v *Verifier) VerifyFunctionBounded(fn *ssa.Function, fc *FuncContract, bou
 	fx.curPos = fn.Pos()
 	envPost := fx.postEnv(stR, results)
 	for _, c := range fc.Ensures {
-		cond := fx.evalBool(envPost, c.Expr)
+		var cond *Term
+		if fc.PerReturn {
+			var parts []*Term
+			for i := range rets {
+				e := fx.postEnv(rets[i].st, rets[i].vals)
+				parts = append(parts, Implies(rets[i].reach, fx.evalBool(e, c.Expr)))
+			}
+			cond = And(parts...)
+		} else {
+			cond = fx.evalBool(envPost, c.Expr)
+		}
 		fx.addObl(short+":"+c.Label, "ensures", reachR, cond, c.Props, c, "postcondition: "+c.Src)
 	}
 	// ghost frame: lock states not named in the modifies clause are the same at exit as at entry
@@ -303,14 +322,18 @@ func (fx *FnCtx) contractCallWithNames(st *State, pc *Term, fc *FuncContract, na
 			pre.vars[n] = SV{V: args[i]}
 		}
 	}
-	assumePre := false
-	if top := fx.root.top; top != nil && top.fc != nil && top.fc.AssumePre[fc.Name] {
-		assumePre = true
-		fx.root.noteOnce("ASSUMED in " + top.fn.Name() + ": the preconditions of " + fc.Name + " hold at its call (declared 'assumes pre'; they are conditions on the caller's history)")
+	assumeLabel := ""
+	if top := fx.root.top; top != nil && top.fc != nil && top.fc.AssumePre[fc.Name] != "" {
+		assumeLabel = top.fc.AssumePre[fc.Name]
+		if assumeLabel == "*" {
+			fx.root.noteOnce("ASSUMED in " + top.fn.Name() + ": the preconditions of " + fc.Name + " hold at its call (declared 'assumes pre'; they are conditions on the caller's history)")
+		} else {
+			fx.root.noteOnce("ASSUMED in " + top.fn.Name() + ": the precondition @" + assumeLabel + " of " + fc.Name + " holds at its call (declared 'assumes pre')")
+		}
 	}
 	for _, c := range fc.Requires {
 		cond := fx.evalBool(pre, c.Expr)
-		if !assumePre {
+		if !(assumeLabel == "*" || (assumeLabel != "" && assumeLabel == c.Label)) {
 			o := fx.addObl(fx.oblName("pre("+fc.Name+")"), "requires", pc, cond, c.Props, nil, "precondition of "+fc.Name+": "+c.Src)
 			_ = o
 		}
@@ -327,7 +350,8 @@ func (fx *FnCtx) contractCallWithNames(st *State, pc *Term, fc *FuncContract, na
 	for _, it := range items {
 		switch it.Kind {
 		case PMap:
-			fx.mapFrameCheck(st, pc, it.Root, it.Ref)
+			// a nil map in the callee's frame cannot be written through
+			fx.mapFrameCheck(st, And(pc, Not(Eq(it.Ref, fx.tc.IdxNum(0)))), it.Root, it.Ref)
 		case PObj:
 			n := it.N
 			p := &PtrInfo{Kind: PObj, Ref: it.Ref, Root: it.Root, Off: it.Off, Typ: it.Root}
